@@ -12,13 +12,29 @@
 (*              the documented formula (4 ulp of the largest operand /     *)
 (*              result magnitude)                                          *)
 (*   LOWP_RSQRT inversesqrt on lowp float vectors: relative error < 2^-8   *)
+(* In an intrinsic build with the aligned qualifiers (cfg = "simd") the    *)
+(* vector side runs GLM's SIMD kernels.  There the lowp float types also   *)
+(* approximate the reciprocal (operator/) and sqrt (same 2^-8 class on     *)
+(* moderate operands; the functions GLM derives from them - sec, csc, cot, *)
+(* asec, acsc, sech, csch, coth, asech, acsch, acoth, smoothstep, mod,     *)
+(* mirrorRepeat (through mod) -                                            *)
+(* inherit an error amplified by their own conditioning and are not        *)
+(* constrained for lowp), min / max / clamp on NaN operands are outside    *)
+(* the domain (GLSL leaves them undefined, the SSE instructions return the *)
+(* second operand), and the sign of a zero result is not part of the value.*)
 (***************************************************************************)
 EXTENDS Words
 
 Composite == {"mix", "smoothstep", "mod", "fma"}
-ClassOf(f, t, q) == IF f \in Composite THEN "COMPOSITE"
-                    ELSE IF f = "inversesqrt" /\ q = "lowp" /\ t = "f32" THEN "LOWP_RSQRT"
-                    ELSE "EXACT"
+LowpSimdDirect == {"div", "sqrt", "inversesqrt"}
+LowpSimdDerived == {"sec", "csc", "cot", "asec", "acsc", "acot", "sech", "csch", "coth", "asech", "acsch", "acoth", "smoothstep", "mod", "texMirrorRepeat"}
+ClassOfCfg(f, t, q, cfg) ==
+    IF cfg = "simd" /\ q = "lowp" /\ t = "f32" /\ f \in LowpSimdDerived THEN "FREE"
+    ELSE IF cfg = "simd" /\ q = "lowp" /\ t = "f32" /\ f \in LowpSimdDirect THEN "LOWP_APPROX"
+    ELSE IF f \in Composite THEN "COMPOSITE"
+    ELSE IF f = "inversesqrt" /\ q = "lowp" /\ t = "f32" THEN "LOWP_RSQRT"
+    ELSE "EXACT"
+ClassOf(f, t, q) == ClassOfCfg(f, t, q, "pure")
 
 \* component i of an argument: a vector argument has n components, a scalar / vec1 argument has one
 Comp(arg, i) == IF Len(arg) = 1 THEN arg[1] ELSE arg[i]
@@ -58,10 +74,22 @@ SkipComp(f, t, args, i) == f \in NaNFamily /\ \E k \in 1..Len(args) : IsSNaNW(t,
 MinMaxFamily == {"min", "max", "fmin", "fmax", "clamp", "fclamp", "clampraw", "min3", "max3", "fmin3", "fmax3", "min4", "max4", "fmin4", "fmax4", "texClamp"}
 BothZero(t, rw, sw) == TypeIsFloat(t) /\ Len(rw) = TypeLimbs(t) /\ Len(sw) = TypeLimbs(t) /\ IsZero(TypeFmt(t), Fields(TypeFmt(t), rw)) /\ IsZero(TypeFmt(t), Fields(TypeFmt(t), sw))
 
-LiftOK(f, t, q, args, rws, sws) ==
+\* the lowp approximations of the intrinsic builds constrain moderate operands only (rcp / rsqrt of zero, subnormal, huge or
+\* non-finite operands are outside the domain, as in C03)
+ModerateW(w) == Len(w) = 2 /\ LET x == Fields(F32, w) IN x.e > 27 /\ x.e < 227
+LowpApproxOK(args, i, rw, sw) ==
+    (\A k \in 1..Len(args) : ModerateW(Comp(args[k], i))) /\ ModerateW(sw) => LowpRsqrtOK(rw, sw)
+SimdNaNFamily == {"min", "max", "clamp", "clampraw", "min3", "max3", "min4", "max4", "texClamp"}
+AnyNaNComp(t, args, i) == TypeIsFloat(t) /\ \E k \in 1..Len(args) : LET w == Comp(args[k], i) IN Len(w) = TypeLimbs(t) /\ IsNaN(TypeFmt(t), Fields(TypeFmt(t), w))
+
+LiftOKCfg(f, t, q, cfg, args, rws, sws) ==
     /\ Len(rws) = Len(sws)
-    /\ \A i \in {j \in 1..Len(rws) : ~SkipComp(f, t, args, j)} :
-         CASE ClassOf(f, t, q) = "EXACT" -> SameBitsOrBothNaN(t, rws[i], sws[i]) \/ (f \in MinMaxFamily /\ BothZero(t, rws[i], sws[i]))
-           [] ClassOf(f, t, q) = "COMPOSITE" -> IF TypeIsFloat(t) THEN CompositeOK(t, args, i, rws[i], sws[i]) ELSE rws[i] = sws[i]
+    /\ \A i \in {j \in 1..Len(rws) : ~SkipComp(f, t, args, j) /\ ~(cfg = "simd" /\ f \in SimdNaNFamily /\ AnyNaNComp(t, args, j))} :
+         CASE ClassOfCfg(f, t, q, cfg) = "EXACT" -> \/ SameBitsOrBothNaN(t, rws[i], sws[i])
+                                                    \/ ((f \in MinMaxFamily \/ cfg = "simd") /\ BothZero(t, rws[i], sws[i]))
+           [] ClassOfCfg(f, t, q, cfg) = "COMPOSITE" -> IF TypeIsFloat(t) THEN CompositeOK(t, args, i, rws[i], sws[i]) ELSE rws[i] = sws[i]
+           [] ClassOfCfg(f, t, q, cfg) = "LOWP_APPROX" -> LowpApproxOK(args, i, rws[i], sws[i])
+           [] ClassOfCfg(f, t, q, cfg) = "FREE" -> TRUE
            [] OTHER -> LowpRsqrtOK(rws[i], sws[i])
+LiftOK(f, t, q, args, rws, sws) == LiftOKCfg(f, t, q, "pure", args, rws, sws)
 =============================================================================
